@@ -55,8 +55,8 @@ def reader_layout(ctx: Ctx, fn: Func) -> None:
     res = resolver(ctx)
     g = cfg_of(ctx, fn)
     deliver = [c for c in own_nodes(fn.node) if isinstance(c, ast.Call) and any(f.name == "process_packet" for f in res.callees(fn, c).funcs)]
-    ctx.ob("C01.R1", fn, "one delivery site taking (type, payload)", len(deliver) == 1 and len(deliver[0].args) == 2 and not deliver[0].keywords, f"{[norm(c)[:60] for c in deliver]}")
-    if len(deliver) != 1 or len(deliver[0].args) != 2:
+    ctx.ob("C01.R1", fn, "delivery sites take (type, payload)", len(deliver) >= 1 and all(len(c.args) == 2 and not c.keywords for c in deliver), f"{[norm(c)[:60] for c in deliver]}")
+    if not deliver or not all(len(c.args) == 2 for c in deliver):
         return
 
     def defs_of(name: str) -> list[ast.expr]:
@@ -75,20 +75,25 @@ def reader_layout(ctx: Ctx, fn: Func) -> None:
     def is_read(e: ast.AST, which: str) -> bool:
         return isinstance(e, ast.Call) and which in {f.name for f in res.callees(fn, e).funcs}
 
-    t_arg, p_arg = deliver[0].args
+    t_names = {norm(c.args[0]) for c in deliver}
+    t_arg = deliver[0].args[0]
     t_defs = defs_of(t_arg.id) if isinstance(t_arg, ast.Name) else []
-    ctx.ob("C01.R1", fn, "the type handed over is the value of a varint read, nothing else", isinstance(t_arg, ast.Name) and bool(t_defs) and all(is_read(d, "_read_varuint") for d in t_defs), f"{norm(t_arg)} = {[norm(d)[:40] for d in t_defs]}")
-    p_defs = defs_of(p_arg.id) if isinstance(p_arg, ast.Name) else []
+    ctx.ob("C01.R1", fn, "the type handed over is the value of a varint read, nothing else", len(t_names) == 1 and isinstance(t_arg, ast.Name) and bool(t_defs) and all(is_read(d, "_read_varuint") for d in t_defs), f"{sorted(t_names)} = {[norm(d)[:40] for d in t_defs]}")
     lens = []
-    okp = isinstance(p_arg, ast.Name) and bool(p_defs)
-    for d in p_defs:
-        if is_read(d, "_read") and not is_read(d, "_read_varuint") and len(d.args) == 1 and isinstance(d.args[0], ast.Name):  # type: ignore[attr-defined]
-            lens.append(d.args[0].id)  # type: ignore[attr-defined]
-        elif isinstance(d, ast.expr) and ctx.sym.eval(d, fn.module.name) == b"":
-            pass
-        else:
-            okp = False
-    ctx.ob("C01.R1", fn, "the payload handed over is `_read(<length>)` or the empty payload, nothing else", okp and len(set(lens)) == 1, f"{norm(p_arg)} = {[norm(d)[:40] for d in p_defs if isinstance(d, ast.expr)]}")
+    okp = True
+    shown = []
+    for c in deliver:
+        p_arg = c.args[1]
+        srcs: list[Any] = defs_of(p_arg.id) if isinstance(p_arg, ast.Name) and defs_of(p_arg.id) else [p_arg]
+        for d in srcs:
+            shown.append(norm(d)[:40] if isinstance(d, ast.AST) else str(d))
+            if is_read(d, "_read") and not is_read(d, "_read_varuint") and len(d.args) == 1 and isinstance(d.args[0], ast.Name):  # type: ignore[attr-defined]
+                lens.append(d.args[0].id)  # type: ignore[attr-defined]
+            elif isinstance(d, ast.expr) and ctx.sym.eval(d, fn.module.name) == b"":
+                pass
+            else:
+                okp = False
+    ctx.ob("C01.R1", fn, "the payload handed over is `_read(<length>)` or the empty payload, nothing else", okp and len(set(lens)) == 1, f"payload sources {shown}")
     if len(set(lens)) != 1 or not isinstance(t_arg, ast.Name):
         return
     l_name = lens[0]
@@ -114,6 +119,8 @@ def reader_layout(ctx: Ctx, fn: Func) -> None:
     order_ok = len(others) == 1 and all(others[0] in ob_.get(n, frozenset()) for n in bind_nodes[f"bind:{l_name}"]) and all(f"bind:{l_name}" in ob_.get(n, frozenset()) for n in bind_nodes[f"bind:{t_arg.id}"])
     pay_nodes = [n for n in g.reachable() if n.ast is not None and any(isinstance(x, ast.Call) and is_read(x, "_read") and not is_read(x, "_read_varuint") for x in walk_own(n.ast))]
     order_ok = order_ok and bool(pay_nodes) and all(f"bind:{t_arg.id}" in ob_.get(n, frozenset()) for n in pay_nodes)
+    del_nodes = [n for n in g.reachable() if any(c in deliver for c in node_calls(n))]
+    order_ok = order_ok and all(f"bind:{t_arg.id}" in ob_.get(n, frozenset()) for n in del_nodes)
     ctx.ob("C01.R1", fn, "reads follow the wire layout: marker, length, type, payload", order_ok, f"varint reads bound to {others} + {l_name}, {t_arg.id}")
 
 
